@@ -7,3 +7,5 @@ import WowVerif.Props.C02
 #print axioms Wv.C02.interop_region
 #print axioms Wv.C02.key_differs_witness
 #print axioms Wv.C02.tail_differs_witness
+#print axioms Wv.C02.writeArchive_conv_irrelevant
+#print axioms Wv.C02.interop_unencrypted
